@@ -516,7 +516,10 @@ def _worker(task):
         ob.info.setdefault('script', name)
     keep = getattr(chk, 'keep_prefixes', None)
     if keep:
-        ex.obligations = [o for o in ex.obligations if o.name.startswith(keep)]
+        suf = getattr(chk, 'keep_suffixes', None) or ()
+        ex.obligations = [o for o in ex.obligations
+                          if o.name.startswith(keep) or
+                          (suf and o.name.endswith(suf))]
     out = _discharge_bucket(chk, ex.obligations, name,
                             is_canary_script=(kind == 'canary'))
     out['undecided'] = und + out['undecided']
